@@ -92,8 +92,17 @@ func enum(e *core.EnumCtx) {
 	probes := map[string]int{}
 	reported := map[string]bool{}
 	for ci, item := range corpus {
-		if ci%e.Shards != e.Shard || e.Expired() {
+		if ci%e.Shards != e.Shard || e.Expired() || ci < e.FromGroup {
 			continue
+		}
+		if simrt.Tainted {
+			// a budget panic unwound the library in this process (see simrt.Tainted): the rest of the
+			// shard is enumerated by a fresh process
+			if e.Sum.Extra == nil {
+				e.Sum.Extra = map[string]any{}
+			}
+			e.Sum.Extra["restart_from_group"] = float64(ci)
+			break
 		}
 		e.Begin(fmt.Sprintf("%d:%s:%s", ci, item.e.name, item.desc))
 		targets := []*entry{item.e}
